@@ -584,42 +584,38 @@ def _failure_mapping(r, fl):
     if not dl:
         raise AnchorVanished("_failure no longer delivers to done_deferred")
 
+    ERRS = ("NotEnoughServersError", "UncoordinatedWriteError")
+
+    def classify(v, env):
+        """Error class carried by expression v (an exception instance or a Failure wrapping one)."""
+        if isinstance(v, ast.Name):
+            return env.get(v.id)
+        if isinstance(v, ast.Call) and call_tail(v) in ERRS:
+            return call_tail(v)
+        if isinstance(v, ast.Call) and call_tail(v) == "Failure" and v.args:
+            return classify(v.args[0], env) or "?"
+        return None
+
     def transfer(n, lab, nxt, st):
-        sur, cls, fvar_cls, delivered = st
+        sur, envt, delivered = st
         f = fnorm.edge_fact(n, lab)
         if f and f[1] == "self.surprised" and f[2] is None:
             sur = "T" if f[0] == "truth" else "F"
         if n.kind == "stmt" and isinstance(n.ast, ast.Assign) and len(n.ast.targets) == 1 \
                 and isinstance(n.ast.targets[0], ast.Name):
-            v = n.ast.value
-            tname = n.ast.targets[0].id
-            if isinstance(v, ast.Call) and call_tail(v) in ("NotEnoughServersError", "UncoordinatedWriteError"):
-                cls = (tname, call_tail(v))
-            elif isinstance(v, ast.Call) and call_tail(v) == "Failure":
-                a = v.args[0] if v.args else None
-                if isinstance(a, ast.Name) and cls and cls[0] == a.id:
-                    fvar_cls = (tname, cls[1])
-                elif isinstance(a, ast.Call) and call_tail(a) in ("NotEnoughServersError", "UncoordinatedWriteError"):
-                    fvar_cls = (tname, call_tail(a))
-                else:
-                    fvar_cls = (tname, "?")
-            elif fvar_cls and fvar_cls[0] == tname:
-                fvar_cls = None
+            env = dict(envt)
+            c = classify(n.ast.value, env)
+            if c is not None:
+                env[n.ast.targets[0].id] = c
+            else:
+                env.pop(n.ast.targets[0].id, None)
+            envt = tuple(sorted(env.items()))
         if n.kind == "stmt":
             a = delivers(n)
             if a is not None:
-                what = "?"
-                if isinstance(a, ast.Name) and fvar_cls and fvar_cls[0] == a.id:
-                    what = fvar_cls[1]
-                elif isinstance(a, ast.Call) and call_tail(a) == "Failure" and a.args:
-                    x = a.args[0]
-                    if isinstance(x, ast.Name) and cls and cls[0] == x.id:
-                        what = cls[1]
-                    elif isinstance(x, ast.Call):
-                        what = call_tail(x)
-                delivered = what
-        return (sur, cls, fvar_cls, delivered)
-    visited, parent = explore(cfg, (None, None, None, None), transfer)
+                delivered = classify(a, dict(envt)) or "?"
+        return (sur, envt, delivered)
+    visited, parent = explore(cfg, (None, (), None), transfer)
     r.count(len(visited))
     r.site(fl, dl[0].ast, "error class by surprised")
     want = {"T": "UncoordinatedWriteError", "F": "NotEnoughServersError"}
@@ -627,7 +623,7 @@ def _failure_mapping(r, fl):
     for (nid, st) in sorted(visited, key=lambda x: (x[0], str(x[1]))):
         if cfg.nodes[nid].kind != "exit":
             continue
-        sur, _c, _f, delivered = st
+        sur, _env, delivered = st
         w = witness(cfg, parent, (nid, st))
         if delivered is None:
             r.violation(fl, fl.loc(), "_failure can return without delivering an error to done_deferred (path: %s)" % w.brief(), w)
